@@ -76,6 +76,21 @@ def register(reg):
                           ("walk-steps-are-coupling-steps-and-accumulate-T", WALK[3])]))
 
 
+    # ---------------------------------------------------------------- the point distance is symmetric (proof harness)
+    # _distance(p, q, dim) for dim = 1, 2, 3 with the ENU distance methods inlined: the same value in both orders, which makes the
+    # distance matrix of the swapped call the transpose (premise of lemma transposed-tables-agree).
+    for f in ("E", "N", "U"):
+        reg.field("ENUCoords", f, "float")
+    EC = "tracklib.core.obs_coords:ENUCoords."
+    reg.auto_inline |= {EC + m for m in ("__sub__", "norm2D", "norm", "distance2DTo", "distanceTo", "__init__")} | {Q + "_distance"}
+    reg.add_harness("distance_both_ways", "def distance_both_ways(p1, p2, dim):\n    a = _distance(p1, p2, dim)\n    b = _distance(p2, p1, dim)\n    return (a, b)\n")
+    reg.add(Spec("harness:distance_both_ways", dict(p1="ENUCoords", p2="ENUCoords", dim="int"), "tuple[opt[float],opt[float]]", fresh=["ENUCoords"],
+                 requires=["dim == 1 or dim == 2 or dim == 3",
+                           "not isnan(p1.E) and not isnan(p1.N) and not isnan(p1.U) and not isnan(p2.E) and not isnan(p2.N) and not isnan(p2.U)"],
+                 ensures=[("same-distance-in-both-orders", "result[0] is not None and result[1] is not None and not isnan(nonnull(result[0])) and "
+                           "nonnull(result[0]) == nonnull(result[1])")]))
+
+
 def lemmas(reg):
     """coupling-lower-bound: any coupling (ci, cj) from (0,0) with steps in {(1,0),(0,1),(1,1)} accumulates
     acc(k) >= T[c(k)].  acc is the accumulated weight along the coupling: acc(0) = W(0, D[c0]), acc(k+1) = W(acc(k), D[c(k+1)])."""
@@ -136,10 +151,13 @@ def lemmas(reg):
              [acc(k) >= z3.Select(T, ci(k), cj(k))], acc(k + 1) >= z3.Select(T, ci(k + 1), cj(k + 1)))]
 
 
-FUNCTIONS = [Q + "_dtw"]
+FUNCTIONS = [Q + "_dtw", "harness:distance_both_ways"]
 ASSUMPTIONS = ["_dtw: only the dynamic-programming region (from `T = np.zeros((N2, N1))` to the end of the backward while loop) is "
                "under contract; forming D, copying the track and _fillAF_dtw are bounded only",
                "the weight function is abstract: monotone in its first argument (true of A + B**p and max(A, B))",
                "symmetry under swapping the tracks: lemma transposed-tables-agree (two certified tables for D and its transpose agree cell by cell, "
-               "hence the same score) is proved; that the swapped call's matrix IS the transpose (symmetry of _distance) is bounded only",
+               "hence the same score) and the harness distance_both_ways (_distance(p, q, dim) == _distance(q, p, dim) for dim = 1, 2, 3, the ENU "
+               "distance methods inlined) are proved; the double loop that fills D with these distances is bounded only; a user-supplied distance "
+               "function (dim callable) is outside",
+               "the harness distance_both_ways is a 3-line driver in the spec file that only calls the real _distance twice (not repository code)",
                "_fdtw (best-first search) is bounded only"]
